@@ -31,6 +31,31 @@ def gen_lines(rng, tier):
         bits = rng.choice([1024, 1025, 2047, 2048])
         lines.append('rsablob %d %d' % (rng.choice([3, 17, 65537, 2 ** 31 + 11]), rng.getrandbits(bits) | 1 | (1 << (bits - 1))))
         lines.append('edblob %s' % framegen.rnd_bytes(rng, 32).hex())
+        lines.append(sshgen.ec_blob_line(rng))
+    lines += msg_lines(rng, n)
+    return lines
+
+
+def msg_lines(rng, n):
+    """transport-layer messages of RFC 4253 7.3 / 8 / 11 and RFC 4419: field values at their boundaries and random ones"""
+    from harness import gen_tables
+    reasons = [v for _, v in dict(gen_tables.local_int_enums())['SshReasonCode']]
+    u32 = lambda: rng.choice([0, 1, 255, 256, 65535, 2 ** 31, 2 ** 32 - 1, rng.getrandbits(32)])
+    mp = lambda: rng.choice([0, 1, 127, 128, 255, 256, 2 ** 1023, 2 ** 1024 - 1, rng.getrandbits(rng.choice([8, 63, 64, 1024, 2047, 2048])),
+                             rng.getrandbits(2048) | (1 << 2047)])
+    text = lambda: rng.choice(['', 'bye', 'Too many authentication failures', 'd\u00e9connexion \u2014 \u7d42\u4e86', 'x' * 300])
+    blob = lambda: (b'\x00\x00\x00\x0bssh-ed25519\x00\x00\x00\x20' + framegen.rnd_bytes(rng, 32)).hex()
+    sig = lambda: (framegen.rnd_bytes(rng, rng.choice([0, 1, 64, 83])).hex() or '-')
+    lines = ['sshmsg newkeys']
+    for _ in range(max(10, n // 4)):
+        lines.append('sshmsg disc %d %s %s' % (rng.choice(reasons), text().encode('utf-8').hex() or '-', rng.choice(['', 'en', 'US', 'en-GB']).encode().hex() or '-'))
+        lines.append('sshmsg unimpl %d' % u32())
+        lines.append('sshmsg dhinit %d' % mp())
+        lines.append('sshmsg dhreply %s %d %s' % (blob(), mp(), sig()))
+        lines.append('sshmsg gexreq %d %d %d' % (u32(), u32(), u32()))
+        lines.append('sshmsg gexgroup %d %d' % (mp(), rng.choice([2, 5, mp()])))
+        lines.append('sshmsg gexinit %d' % mp())
+        lines.append('sshmsg gexreply %s %d %s' % (blob(), mp(), sig()))
     return lines
 
 
@@ -80,6 +105,31 @@ def run(chk):
                 nv += 1
                 chk.violation('parsing an RFC-conformant KEXINIT does not recover the encoded values: implementation %s, specification %s' % (i[:140], m[:140]),
                               {'cmd': l, 'impl': i, 'spec': m}, None, True)
+        # transport-layer messages: the specification's encoding is parsed through the message variant of each key-exchange
+        # context in which the message may occur, alone and followed by other bytes; the fields must be the encoded ones
+        msg_dec = []
+        native = []   # per decode line: is the context one in which the composed message is defined?
+        ctxs = {'disc': ['init', 'kexdh', 'gex'], 'unimpl': ['init', 'kexdh', 'gex'], 'newkeys': ['kexdh', 'gex'], 'dhinit': ['kexdh'], 'dhreply': ['kexdh'],
+                'gexreq': ['gex'], 'gexgroup': ['gex'], 'gexinit': ['gex'], 'gexreply': ['gex']}
+        for l, m in zip(lines, model_out):
+            if l.startswith('sshmsg ') and m.startswith('OK '):
+                for ctx in ('init', 'kexdh', 'gex'):
+                    native += [ctx in ctxs[l.split(' ')[1]]] * 2
+                    # in a context in which the message number is not defined both sides must refuse (or, for number 31, read
+                    # the bytes as the other message of that number)
+                    msg_dec += ['sshmsgdec %s %s' % (ctx, m[3:]), 'sshmsgdec %s %s' % (ctx, m[3:] + '00000001ff')]
+        for l, m, nat in zip(msg_dec, common.run_model(msg_dec), native):
+            i = impl.impl_line(l)
+            m = 'REFUSED' if m == 'NONE' else m
+            i = 'REFUSED' if i.startswith('ERR ') else i
+            if m != 'REFUSED' and not nat:
+                continue    # number 31 read as the other message of that number: K_S is a host key for the library, a string for the RFC
+            if m != i and nv < 12:
+                nv += 1
+                chk.violation('parsing an RFC-conformant %s message does not recover the encoded values: implementation %s, specification %s' % (
+                    l.split(' ')[1], i[:140], m[:140]), {'cmd': l, 'impl': i, 'spec': m}, None, True)
+        dec_lines += msg_dec
+        chk.coverage['transport_messages'] = len(msg_dec)
     else:
         chk.violation('model runner does not build: %s' % br.failed_file, {'error': br.error}, None, False)
     # the padding rule itself, on the implementation, independent of the model
@@ -98,11 +148,13 @@ def run(chk):
                             'padding / packet_length compared with the model and checked against the RFC 4253 rule; mpints at all boundary bit '
                             'lengths 2^k-1, 2^k, 2^k+1 and random ones against the RFC 4251 specification; KEXINIT messages over known and '
                             'unknown names (empty lists included) composed and compared with the specification encoding, specification encodings '
-                            'parsed and the values compared; ssh-rsa and ssh-ed25519 key blobs against the specification')
+                            'parsed and the values compared; ssh-rsa, ssh-ed25519 and ecdsa-sha2-nistp256/384/521 key blobs against the specification; DISCONNECT, UNIMPLEMENTED, '
+                            'NEWKEYS, KEXDH_INIT / REPLY and the four RFC 4419 group-exchange messages composed from field values and compared with '
+                            'the specification, the specification encodings parsed through the message variant of every context they occur in')
     for i in range(0, len(lines), max(1, len(lines) // 8)):
         chk.sample({'cmd': lines[i][:140], 'outcome': impl_out[i][:100]})
-    chk.assumptions += ['the identification string (banner), DH / GEX messages, DSS / ECDSA keys and OpenSSH certificates are covered by the C01/C05 '
-                        'sweeps only, not by the specification yet']
+    chk.assumptions += ['ECDSA keys, ECDH messages and the RSA / DSS / ECDSA certificate types are covered by the C01/C05 sweeps only, not by the '
+                        'specification yet; the DH / GEX numbers e, f, p, g are byte strings in the library (the payload of the mpint)']
 
 
 def replay(path):
